@@ -463,6 +463,8 @@ struct Plan {
     /// is moved so that the weighted sum matches the linked value, and its first Schnorr message T is
     /// recomputed to fit (works only if T does not enter the challenge)
     post_challenge: Option<usize>,
+    /// the "signature" presented at this position is a pair of curve points outside the prime-order group
+    outside_group_at: Option<usize>,
 }
 
 fn digits_of(lay: &Layout, x: u128) -> (Vec<Scalar>, Vec<usize>) {
@@ -486,7 +488,7 @@ fn plans(c: &Ctx, lay: &Layout) -> Vec<Plan> {
     let top_in = cap.min(TWO63) - 1; // largest in-range value the layout can represent
     let mut v: Vec<Plan> = vec![];
     let mut push = |family: &str, variant: String, d: (Vec<Scalar>, Vec<usize>), val: Scalar, control: bool| {
-        v.push(Plan { family: family.into(), variant, digits: d.0, sig_idx: d.1, v: val, control, shared: vec![], extrapolate: None, post_challenge: None });
+        v.push(Plan { family: family.into(), variant, digits: d.0, sig_idx: d.1, v: val, control, shared: vec![], extrapolate: None, post_challenge: None, outside_group_at: None });
     };
     let all_max = (vec![Scalar::from(lay.u - 1); l], vec![(lay.u - 1) as usize; l]);
     // controls: honest decompositions assembled by the shadow prover
@@ -641,7 +643,7 @@ fn plans(c: &Ctx, lay: &Layout) -> Vec<Plan> {
                 let delta = (target - base) * inv.unwrap();
                 d[a] += delta;
                 d[b] -= delta;
-                v.push(Plan { family: "coordinated-pair-of-invalid-digits".into(), variant: format!("{}/pos{}-{}", tname, a, b), digits: d, sig_idx: i, v: target, control: false, shared: vec![a, b], extrapolate: None, post_challenge: None });
+                v.push(Plan { family: "coordinated-pair-of-invalid-digits".into(), variant: format!("{}/pos{}-{}", tname, a, b), digits: d, sig_idx: i, v: target, control: false, shared: vec![a, b], extrapolate: None, post_challenge: None, outside_group_at: None });
             }
         }
     }
@@ -658,18 +660,27 @@ fn plans(c: &Ctx, lay: &Layout) -> Vec<Plan> {
             let x = TWO63.min(cap);
             let (mut d, idx) = digits_of(lay, x % half);
             d[l - 1] = scalar_u128(x / half);
-            v.push(Plan { family: "signature-extrapolated-from-two-published".into(), variant: format!("top-digit/{}-{}", i, j), digits: d, sig_idx: idx, v: scalar_u128(x), control: false, shared: vec![], extrapolate: Some((l - 1, i, j)), post_challenge: None });
+            v.push(Plan { family: "signature-extrapolated-from-two-published".into(), variant: format!("top-digit/{}-{}", i, j), digits: d, sig_idx: idx, v: scalar_u128(x), control: false, shared: vec![], extrapolate: Some((l - 1, i, j)), post_challenge: None, outside_group_at: None });
             // -1 with the lowest digit -1
             let (mut d, idx) = digits_of(lay, 0);
             d[0] = -Scalar::one();
-            v.push(Plan { family: "signature-extrapolated-from-two-published".into(), variant: format!("negative-digit/{}-{}", i, j), digits: d, sig_idx: idx, v: -Scalar::one(), control: false, shared: vec![], extrapolate: Some((0, i, j)), post_challenge: None });
+            v.push(Plan { family: "signature-extrapolated-from-two-published".into(), variant: format!("negative-digit/{}-{}", i, j), digits: d, sig_idx: idx, v: -Scalar::one(), control: false, shared: vec![], extrapolate: Some((0, i, j)), post_challenge: None, outside_group_at: None });
             // control: interpolation that lands on i itself is the published signature
             if k == 0 {
                 let (d, idx) = digits_of(lay, 3 * u + i as u128);
-                v.push(Plan { family: "signature-extrapolated(control:lands-on-published)".into(), variant: format!("{}-{}", i, j), digits: d, sig_idx: idx, v: scalar_u128(3 * u + i as u128), control: true, shared: vec![], extrapolate: Some((0, i, j)), post_challenge: None });
+                v.push(Plan { family: "signature-extrapolated(control:lands-on-published)".into(), variant: format!("{}-{}", i, j), digits: d, sig_idx: idx, v: scalar_u128(3 * u + i as u128), control: true, shared: vec![], extrapolate: Some((0, i, j)), post_challenge: None, outside_group_at: None });
             }
             k += 1;
         }
+    }
+    // a top digit outside the alphabet "signed" by two curve points outside the prime-order group (they pair
+    // to 1 with everything); a decoder that checks group membership never lets such a constraint in
+    {
+        let half = cap / u;
+        let x = TWO63.min(cap);
+        let (mut d, idx) = digits_of(lay, x % half);
+        d[l - 1] = scalar_u128(x / half);
+        v.push(Plan { family: "digit-signature-outside-the-group".into(), variant: "top-digit".into(), digits: d, sig_idx: idx, v: scalar_u128(x), control: false, shared: vec![], extrapolate: None, post_challenge: None, outside_group_at: Some(l - 1) });
     }
     // the adaptive prover: honest digits of an in-range value, linked slot out of range, one digit proof
     // re-fitted after the challenge
@@ -678,7 +689,7 @@ fn plans(c: &Ctx, lay: &Layout) -> Vec<Plan> {
         for (tname, target) in [("-1", -Scalar::one()), ("2^63", scalar_u128(TWO63)), ("q-2^63", -scalar_u128(TWO63))] {
             for j in [0usize, l - 1] {
                 let (d, idx) = digits_of(lay, honest_val);
-                v.push(Plan { family: "post-challenge-digit-proof".into(), variant: format!("{}/digit{}", tname, j), digits: d, sig_idx: idx, v: target, control: false, shared: vec![], extrapolate: None, post_challenge: Some(j) });
+                v.push(Plan { family: "post-challenge-digit-proof".into(), variant: format!("{}/digit{}", tname, j), digits: d, sig_idx: idx, v: target, control: false, shared: vec![], extrapolate: None, post_challenge: Some(j), outside_group_at: None });
             }
         }
     }
@@ -732,6 +743,11 @@ fn forge_case<const N: usize>(c: &mut Ctx, m: &'static Merchant, lay: &Layout, p
             }
             rp.digits[at] = crate::shadow::SigProver::commit(&mut rng, &m.range_pk, vec![t], forged, &[None]);
         }
+        if let Some(at) = p.outside_group_at {
+            let pt = |rng: &mut ChaCha20Rng| Option::<bls12_381::G1Affine>::from(bls12_381::G1Affine::from_compressed_unchecked(&crate::wire::g1_cofactor_point(rng)));
+            let (Some(a), Some(b)) = (pt(&mut rng), pt(&mut rng)) else { return c.inconclusive("C13: cofactor point") };
+            rp.digits[at] = crate::shadow::SigProver::commit(&mut rng, &m.range_pk, vec![p.digits[at]], (a, b), &[None]);
+        }
         // the linked commitment proof over generators the harness chooses
         let h: G1Projective = rand_g1(&mut rng).into();
         let gs: Vec<G1Projective> = (0..N).map(|_| rand_g1(&mut rng).into()).collect();
@@ -747,6 +763,12 @@ fn forge_case<const N: usize>(c: &mut Ctx, m: &'static Merchant, lay: &Layout, p
         }
         let draft: RangeConstraint = match dec(&tr.bytes) {
             Ok(d) => d,
+            Err(_) if p.outside_group_at.is_some() => {
+                c.eval();
+                c.distinct(&format!("forger/{}/{}/N={}/pos={}/refused-at-decode", p.family, p.variant, N, pos));
+                c.count("constraints_with_points_outside_the_group_refused_at_decode", 1);
+                return;
+            }
             Err(e) => return c.inconclusive(&format!("C13: draft constraint does not decode: {}", e)),
         };
         let ch = ChallengeBuilder::new().with(&draft).with(rparams).with_bytes(link.com_bytes()).with_bytes(link.t_bytes()).finish();
